@@ -15,7 +15,7 @@ Notation edge := (N * N)%type.
 (* ------------------------------------------------------------------------- control *)
 (* BreakSignal and OutOfFuel are not Python exceptions: `break` is modelled as a signal caught by the innermost loop
    (py_loop_b / py_while), OutOfFuel says that a `while` did not finish within the fuel the caller of the model gave *)
-Inductive exn := ValueError | KeyError | TypeError | RuntimeError | IndexError | PyException | BreakSignal | OutOfFuel.
+Inductive exn := ValueError | KeyError | TypeError | RuntimeError | IndexError | PyException | BreakSignal | OutOfFuel | UnboundLocalError.
 Inductive ctl (R : Type) := CNormal | CContinue | CReturn (r : R) | CRaise (e : exn).
 Arguments CNormal {R}. Arguments CContinue {R}. Arguments CReturn {R} r. Arguments CRaise {R} e.
 (* what a call yields: a value, an exception, or falling off the end (Python: None) *)
@@ -267,7 +267,7 @@ Definition py_in_degree (G : pygraph) (v : node) : Z := py_len (py_in_edges G v)
 
 (* ------------------------------------------------------------------------- result printing (correspondence runs) *)
 Definition exn_code (e : exn) : Z :=
-  match e with ValueError => 0 | KeyError => 1 | TypeError => 2 | RuntimeError => 3 | IndexError => 4 | PyException => 5 | BreakSignal => 6 | OutOfFuel => 7 end%Z.
+  match e with ValueError => 0 | KeyError => 1 | TypeError => 2 | RuntimeError => 3 | IndexError => 4 | PyException => 5 | BreakSignal => 6 | OutOfFuel => 7 | UnboundLocalError => 8 end%Z.
 Definition enc_Q (q : Q) : list Z := let r := Qred q in [Qnum r; Zpos (Qden r)].
 Definition enc_result {R} (enc : R -> list Z) (r : result R) : list Z :=
   match r with Ret v => 0%Z :: enc v | Exc e => [1%Z; exn_code e] | RetNone => [2%Z] end.
